@@ -25,8 +25,20 @@ use nitrogql_semantics::{
 };
 use sourcemap_writer::{JsStringWriter, SourceWriter, SourceWriterBuffers};
 
-#[path = "../../.build/repo/crates/cli/src/builtins.rs"]
-pub mod cli_builtins;
+/// The CLI's own built-in definitions, compiled in from the tree under check. The file is included into a module
+/// of ours (not mounted as a module) so that the two functions stay reachable when a change narrows their
+/// visibility: the replica keeps doing what the CLI does on the reference tree, and the CLI conformance layer
+/// reports the difference instead of the harness failing to build.
+#[allow(dead_code, unused_imports)]
+pub mod cli_builtins {
+    include!("../../.build/repo/crates/cli/src/builtins.rs");
+    pub fn nqv_nitrogql_builtins() -> Vec<nitrogql_ast::type_system::TypeSystemDefinitionOrExtension<'static>> {
+        nitrogql_builtins()
+    }
+    pub fn nqv_remove_builtins<'src>(schema: &nitrogql_ast::TypeSystemDocument<'src>) -> nitrogql_ast::TypeSystemDocument<'src> {
+        remove_builtins(schema)
+    }
+}
 
 #[derive(Clone, Debug)]
 pub struct Diag {
@@ -107,7 +119,7 @@ pub fn parse_schema_files<'a>(texts: &'a [String]) -> Result<TypeSystemOrExtensi
 /// builtins + nitrogql builtins, extension resolution, type-system check (no plugins).
 pub fn resolve_and_check_schema<'a>(mut doc: TypeSystemOrExtensionDocument<'a>) -> Result<TypeSystemDocument<'a>, Failure> {
     doc.extend(graphql_builtins::generate_builtins());
-    doc.extend(cli_builtins::nitrogql_builtins());
+    doc.extend(cli_builtins::nqv_nitrogql_builtins());
     let resolved = match resolve_schema_extensions(doc) {
         Ok(r) => r,
         Err(e) => {
@@ -290,7 +302,7 @@ pub fn plugin_additions(plugins: &[Plugin<'static>]) -> Result<Vec<TypeSystemOrE
 /// resolve_and_check_schema with the plugins' schema additions appended after the built-ins, as the CLI does
 pub fn resolve_and_check_schema_with<'a>(mut doc: TypeSystemOrExtensionDocument<'a>, additions: Vec<TypeSystemOrExtensionDocument<'a>>) -> Result<TypeSystemDocument<'a>, Failure> {
     doc.extend(graphql_builtins::generate_builtins());
-    doc.extend(cli_builtins::nitrogql_builtins());
+    doc.extend(cli_builtins::nqv_nitrogql_builtins());
     for a in additions {
         doc.extend(a.definitions);
     }
@@ -350,7 +362,7 @@ pub fn server_graphql(doc: &TypeSystemDocument) -> String {
     buffer.push_str("export const schema = ");
     {
         let mut writer = JsStringWriter::new(&mut buffer);
-        cli_builtins::remove_builtins(doc).print_graphql(&mut writer);
+        cli_builtins::nqv_remove_builtins(doc).print_graphql(&mut writer);
     }
     buffer.push_str(";\n");
     buffer
